@@ -1,6 +1,6 @@
 (* C09 model: POSIX path algebra on component lists; split_remote_path (utils.py), the three
    naming strategies and chain_strategies (naming.py), calculate_download_path, and the
-   check-then-create window of _prepare_download_path / open(...,'ab') (transfer/manager.py).
+   reservation of the chosen name in _prepare_download_path (transfer/manager.py).
    Strings are lists of code points (N).  Paths are lists of components below a model root
    (the harness' temp dir); the file system is a finite set of existing entries.
    Definitions only; executable (vm_compute).  Not modelled: symlinks, case-insensitive or
@@ -31,7 +31,10 @@ Fixpoint split_at_seps (cur : str) (s : str) : list str :=
   | c :: r => if is_sep c then rev cur :: split_at_seps [] r else split_at_seps (c :: cur) r
   end.
 Definition nonempty (s : str) : bool := match s with [] => false | _ => true end.
-Definition split_remote_path (s : str) : list str := filter nonempty (split_at_seps [] s).
+Definition dot : str := [DOT].  Definition dotdot : str := [DOT; DOT].
+(* parts kept by split_remote_path: `if part and part not in ('.', '..')` *)
+Definition keep_part (s : str) : bool := andb (nonempty s) (andb (negb (str_eqb s dot)) (negb (str_eqb s dotdot))).
+Definition split_remote_path (s : str) : list str := filter keep_part (split_at_seps [] s).
 
 (* ---------- file system ------------------------------------------------------------------ *)
 Inductive kind := KDir | KFile.
@@ -53,8 +56,6 @@ Fixpoint lookup (fs : fsys) (p : path) : option kind :=
          | (q, k) :: r => if path_eqb q p then Some k else lookup r p
          end
   end.
-
-Definition dot : str := [DOT].  Definition dotdot : str := [DOT; DOT].
 
 (* kernel path walk without symlinks: every component is looked up in a directory *)
 Fixpoint resolve (fs : fsys) (cur : path) (comps : list str) : option path :=
@@ -185,16 +186,19 @@ Definition is_alpha (c : N) : bool := orb (andb (N.leb 65 c) (N.leb c 90)) (andb
 Definition starts_atat (s : str) : bool := match s with a :: b :: _ => andb (N.eqb a AT) (N.eqb b AT) | _ => false end.
 Definition is_drive (s : str) : bool := match s with a :: b :: _ => andb (is_alpha a) (N.eqb b COLON) | _ => false end.
 
-(* None = the strategy raises (IndexError on an empty component list) *)
+(* DefaultNamingStrategy.FALLBACK_FILENAME *)
+Definition UNNAMED : str := [117; 110; 110; 97; 109; 101; 100].
+
+(* None = the strategy raises (no shipped strategy does any more; NumDup would if listdir failed) *)
 Definition apply_strat (fs : fsys) (remote : str) (st : strat) (p : path) (f : str) : option (path * str) :=
   let parts := split_remote_path remote in
   match st with
-  | Default => match rev parts with l :: _ => Some (p, l) | [] => None end
+  | Default => match rev parts with l :: _ => Some (p, l) | [] => Some (p, UNNAMED) end
   | KeepDir =>
       match rev parts with
       | [_] => Some (p, f)
       | _ :: c :: _ => if orb (starts_atat c) (is_drive c) then Some (p, f) else Some (p ++ [c], f)
-      | [] => None
+      | [] => Some (p, f)
       end
   | NumDup =>
       if pexists fs (p ++ [f]) then
@@ -245,15 +249,9 @@ Definition regular_nameb (f : str) : bool :=
 (* the download directory itself: plain component names *)
 Definition dl_ok (dl : path) : Prop := Forall regular_name dl.
 
-(* what a peer may send for the result to be safe today (finding F08 otherwise):
-   at least one component, the last one not "." or "..", the one before it not ".." or "." *)
-Definition benign (parts : list str) : Prop :=
-  match rev parts with
-  | [] => False
-  | l :: r => l <> dot /\ l <> dotdot /\ match r with c :: _ => c <> dot /\ c <> dotdot | [] => True end
-  end.
-
-(* ---------- concurrency: path choice and file creation are separate events ------------------ *)
+(* ---------- concurrency: Prepare k = _prepare_download_path (choice + makedirs + reservation of the
+   name by creating the empty file, all before the first suspension point); Create k = the later
+   aiofiles.open(..., 'ab') ------------------------------------------------------------------- *)
 Inductive dev := Prepare (k : nat) | Create (k : nat).
 Record dstate := mkD { d_fs : fsys; d_paths : list (nat * (path * str)) }.
 
@@ -282,7 +280,10 @@ Definition dstep (ch : list strat) (dl : path) (remotes : nat -> str) (s : dstat
       match find_path (d_paths s) k with
       | Some _ => s                                     (* local_path already set *)
       | None => match chain (d_fs s) (remotes k) ch dl with
-                | Some (p, f) => mkD (mkdirs (d_fs s) [] (norm p)) ((k, (p, f)) :: d_paths s)
+                | Some (p, f) =>
+                    let fs2 := create_file (mkdirs (d_fs s) [] (norm p)) p f in
+                    (* OSError from makedirs/open: local_path stays unset *)
+                    if pexists fs2 (p ++ [f]) then mkD fs2 ((k, (p, f)) :: d_paths s) else mkD fs2 (d_paths s)
                 | None => s
                 end
       end
@@ -301,3 +302,5 @@ Fixpoint distinct_paths (l : list (nat * (path * str))) : bool :=
   | [] => true
   | (_, x) :: r => andb (negb (existsb (fun y => path_eqb (full_path x) (full_path (snd y))) r)) (distinct_paths r)
   end.
+
+Definition joined (x : nat * (path * str)) : path := fst (snd x) ++ [snd (snd x)].
